@@ -14,16 +14,58 @@ import (
 
 // C13 — line-oriented formats survive truncation and require well-formed lines.
 
-// vfEarlierSibling reports a node that is tried before the given path (root child first)
-// and accepts the header: the "higher-priority signature" exception.
+// vfOutranks: the formats that are documented (tree.go at the pinned commit, and the properties'
+// anchors) to be tried before a given format. The list is FIXED here on purpose: reading the
+// priority from the tree under test would excuse a change that silently re-orders siblings.
+var vfRootBeforeTar = []string{"image/x-xpixmap", "application/x-7z-compressed", "application/zip", "application/pdf", "application/vnd.fdf", "application/x-ole-storage",
+	"application/postscript", "image/vnd.adobe.photoshop", "application/pkcs7-signature", "application/ogg", "image/png", "image/jpeg", "image/jxl", "image/jp2", "image/jpx",
+	"image/jpm", "image/jxs", "image/gif", "image/webp", "application/vnd.microsoft.portable-executable", "application/x-elf", "application/x-archive"}
+var vfTextBeforeJSON = []string{"text/html", "image/svg+xml", "text/xml", "text/x-php", "text/javascript", "text/x-lua", "text/x-perl", "text/x-python"}
+
+func vfOutranks(target string) map[string]bool {
+	out := map[string]bool{}
+	add := func(l []string) {
+		for _, m := range l {
+			out[m] = true
+		}
+	}
+	switch target {
+	case "application/x-tar":
+		add(vfRootBeforeTar)
+		return out
+	case "application/json":
+		add(vfTextBeforeJSON)
+	case "application/x-ndjson":
+		add(vfTextBeforeJSON)
+		add([]string{"application/json"})
+	case "text/csv":
+		add(vfTextBeforeJSON)
+		add([]string{"application/json", "application/x-ndjson", "text/rtf", "application/x-subrip", "text/x-tcl"})
+	case "text/tab-separated-values":
+		add(vfTextBeforeJSON)
+		add([]string{"application/json", "application/x-ndjson", "text/rtf", "application/x-subrip", "text/x-tcl", "text/csv"})
+	}
+	// every binary format at the root outranks text/plain and everything below it
+	for _, c := range root.children {
+		if c != text && c.mime != "text/plain" {
+			out[c.mime] = true
+		}
+	}
+	return out
+}
+
+// vfEarlierSibling reports a node that is tried before the given path (root child first),
+// accepts the header AND is documented to outrank the target: the "higher-priority signature"
+// exception. A node that merely happens to sit earlier in the live tree does not count.
 func vfEarlierSibling(path []*MIME, h []byte, limit uint32) string {
+	allowed := vfOutranks(path[len(path)-1].mime)
 	parent := root
 	for _, want := range path {
 		for _, c := range parent.children {
 			if c == want {
 				break
 			}
-			if c.detector(h, limit) {
+			if allowed[c.mime] && c.detector(h, limit) {
 				return c.mime
 			}
 		}
